@@ -28,6 +28,7 @@ type World struct {
 	exprMemo   map[*types.Func]*ast.FuncDecl
 	wrMemo     map[*types.Func]wrSummary
 	InlinePreds bool // second reading: boolean helper calls stand for their bodies (see inline.go)
+	SpliceKnown bool // second reading: helpers the rule tables know are read in place of their calls too
 	obsUse     map[types.Object]bool
 	obsDef     map[ast.Expr]bool
 	Vocab      VocabSnapshot         // local signatures recorded when the rule tables were written (nil: none)
